@@ -8,7 +8,8 @@ RSA = "iroh::socket::remote_map::remote_state::RemoteStateActor"
 
 def check(F, rep):
     rep.clause("BiasedRttPathSelector::select: every path handed to selection.set(..) is an element yielded by ctx.paths() whose stats() was Some; without such an element the untouched PathSelection::none() is returned; RemoteStateActor::select_path replaces the selected path only with a Some(addr) the selector returned")
-    rep.undecided("tiering (primary vs backup) and the 5 ms / 3 ms thresholds (values)")
+    rep.clause("ranking, as relations: both accumulators of the single pass (`best`, and `current_key` for the currently selected address) are running minima - a slot is overwritten only when it is empty or the new key is `<` the stored one - so duplicates of an address across connections count with their lowest key; the final decision, extracted as a truth function, is: select best iff a candidate exists and (no key for the current path, or the tiers differ, or best_biased + RTT_SWITCHING_MIN <= current_biased); keys are (tier, rtt_nanos saturating_add bias) compared lexicographically with Primary < Backup; the default table makes IPv4/IPv6 primary, relay backup, IPv6 credited IPV6_RTT_ADVANTAGE; RTT_SWITCHING_MIN = 5 ms, IPV6_RTT_ADVANTAGE = 3 ms")
+    rep.undecided("arithmetic on the RTT values themselves (overflow of as_nanos as i128 cannot happen; saturating add)")
     fs = F.find(r"^<iroh::socket::biased_rtt_path_selector::BiasedRttPathSelector as .*::PathSelector>::select$")
     if len(fs) != 1:
         rep.missing("anchor", SEL)
@@ -64,6 +65,7 @@ def check(F, rep):
         none_t = {tg for t in bt[-1:] for _, tg in t.failure}
         leak = any(sb in f.reachable(tg) for tg in none_t for sb, _ in sets)
         rep.ob("selection", bool(none_t) and not leak, site(f, bt[-1].bb), "with no candidate nothing is selected (the PathSelection::none() value is returned untouched)", SEL + "|none-untouched")
+    ranking(F, rep, f)
     # ---- select_path
     sp = [g for g in F.tree_of(RSA + "::select_path")]
     body = max(sp, key=lambda g: len(g.blocks))
@@ -90,6 +92,297 @@ def check(F, rep):
     for g, b, i, kind, s in allw:
         is_clear = kind == "write" and s["rv"]["k"] == "use" and operand_sources(g, s["rv"]["o"], follow=True) == {("agg", "core::option::Option::None")}
         rep.ob("who_writes", source_fn(F, g) == RSA + "::select_path" or is_clear, site(g, b), "State.selected_path is set to a path only in select_path (elsewhere only cleared): %s%s" % (source_fn(F, g), " [clear]" if is_clear else ""), skey(F, g, "selected_path-writer"))
+
+
+def ranking(F, rep, f):
+    """Running-minimum accumulators and the final switching decision of select()."""
+    from .. import booltab
+    from ..booltab import Unsupported
+    M = "iroh::socket::biased_rtt_path_selector::"
+    du = defuse(f)
+    slots = {}
+    for n, pl in f.vars:
+        if n in ("best", "current_key") and not pl.get("p") and str(f.locals[pl["l"]]).startswith("core::option::Option<"):
+            slots[n] = pl["l"]
+    rep.ob("ranking", set(slots) == {"best", "current_key"}, site(f), "accumulators `best` and `current_key` found: %s" % sorted(slots), skey(F, f, "slots"))
+    if set(slots) != {"best", "current_key"}:
+        return
+    sk = find_calls(f, M + "BiasedRttPathSelector::sort_key")
+    rep.exact("ranking", "sort_key calls in select", len(sk), 1)
+    none_c = find_calls(f, regex=r"PathSelection::none$")
+    paths_c = find_calls(f, regex=r"PathSelectionContext::paths$")
+    if not (sk and none_c and paths_c):
+        return
+    key_l = sk[0][1]["dest"]["l"]
+    nx = [(b, t) for b, t in find_calls(f, "core::iter::traits::iterator::Iterator::next") if paths_c[0][1]["dest"]["l"] in du.closure(op_base(t["args"][0]))]
+    if not nx:
+        return
+    loop_head = nx[0][0]
+    stopset = {loop_head}
+    slotset = set(slots.values())
+
+    def src(o, fr=None):
+        fr = fr or f
+        l = op_base(o)
+        return copy_sources(fr, l, stop=slotset if fr is f else ()) if l is not None else set()
+
+    def is_key(o):
+        x = src(o)
+        return bool(x) and all(y[0] == "call" and y[1].endswith("BiasedRttPathSelector::sort_key") for y in x)
+
+    def slot_payload(o, name):
+        """operand is the key stored in slot `name` (payload of Some; for `best` its .1)"""
+        x = src(o)
+        want = ("0",) if name == "current_key" else ("0", "1")
+        return bool(x) and all(y[0] == "place" and y[1] == slots[name] and tuple(y[2]) == want for y in x)
+
+    def lt_closure(o, name):
+        """closure |c| key < c  (for best: |(_, b)| key < *b) capturing the new key"""
+        l = op_base(o)
+        if l is None:
+            return False
+        ty = str(f.locals[l])
+        m = re.search(r"closure@[^:]+:(\d+):(\d+)", ty)
+        if not m:
+            return False
+        cl = [c for c in F.tree(f) if c is not f and c.kind == "Closure" and c.line == int(m.group(1)) and c.path.count("{closure") == f.path.count("{closure") + 1]
+        # the captured value is the new key
+        caps = [st["rv"] for b, i, st in f.stmts() if st["k"] == "a" and st["lhs"]["l"] == l and st["rv"]["k"] == "agg"]
+        if not caps or not all(len(rv["ops"]) == 1 and is_key(rv["ops"][0]) for rv in caps):
+            return False
+        for c in cl:
+            cc = list(c.calls())
+            if len(cc) != 1 or not call_matches(cc[0][1], r"^core::cmp::PartialOrd::lt$") or cc[0][1]["dest"]["l"] != 0:
+                continue
+            a0 = copy_sources(c, op_base(cc[0][1]["args"][0]))
+            a1 = copy_sources(c, op_base(cc[0][1]["args"][1]))
+            want1 = () if name == "current_key" else ("1",)
+            if a0 == {("arg", 1, ("key",))} and a1 == {("arg", 2, want1)}:
+                rep.fn(c)
+                return True
+        return False
+
+    # ---- running minima
+    def newkey_blocks(name):
+        """blocks that build `Some(<this path's key>)` of the slot's type (the value that
+        overwrites the slot); every assignment to the slot must come from such a value or
+        from the slot's own old content"""
+        sl = slots[name]
+        out, bad = set(), []
+        sty = str(f.locals[sl])
+        for b in f.reachable(sk[0][1]["t"]):
+            for i, st in enumerate(f.blocks[b]["s"]):
+                if st["k"] == "a" and st["rv"]["k"] == "agg" and st["rv"].get("variant") == "Some" and str(f.locals[st["lhs"]["l"]]) == sty and not st["lhs"].get("p"):
+                    op = st["rv"]["ops"][0]
+                    x = src(op)
+                    if name == "best" and x == {("agg", "tuple")}:
+                        tl = op_base(op)
+                        x = set()
+                        for b2, i2, st2 in f.stmts():
+                            if st2["k"] == "a" and st2["lhs"] == {"l": tl} and st2["rv"]["k"] == "agg" and len(st2["rv"]["ops"]) == 2:
+                                x |= src(st2["rv"]["ops"][1])
+                    if x and all(y[0] == "call" and y[1].endswith("BiasedRttPathSelector::sort_key") for y in x):
+                        out.add(b)
+                    elif x and all(y[0] == "place" and y[1] == sl for y in x):
+                        pass        # re-wrapping the stored value: a no-op
+                    else:
+                        bad.append((b, sorted(map(str, x))))
+        return out, bad
+
+    def slot_value_of(v):
+        def value_of(a):
+            if a.kind == "call":
+                if call_matches(a.term, r"^core::cmp::PartialEq::(eq|ne)$"):
+                    x0, x1 = src(a.args[0]), src(a.args[1])
+                    cur = lambda x: bool(x) and all(y[0] == "call" and y[1].endswith("PathSelectionContext::current") for y in x)
+                    npth = lambda x: x == {("agg", "core::option::Option::Some")} or (bool(x) and all(y[0] == "call" and y[1].endswith("network_path") for y in x))
+                    if (cur(x0) and npth(x1)) or (cur(x1) and npth(x0)):
+                        return v["is_current"] == a.name.endswith("::eq")
+                for nm in slots:
+                    st_ = v[nm]
+                    if call_matches(a.term, r"^core::option::Option::is_none_or$"):
+                        x = src(a.args[0])
+                        if bool(x) and all(y[0] == "place" and y[1] == slots[nm] and tuple(y[2]) == () for y in x) and lt_closure(a.args[1], nm):
+                            return st_ in ("empty", "lt")
+                    if call_matches(a.term, r"^core::cmp::PartialOrd::(lt|ge)$") and is_key(a.args[0]) and slot_payload(a.args[1], nm):
+                        return (st_ == "lt") == a.name.endswith("::lt")
+                    if call_matches(a.term, r"^core::cmp::PartialOrd::(gt|le)$") and is_key(a.args[1]) and slot_payload(a.args[0], nm):
+                        return (st_ == "lt") == a.name.endswith("::gt")
+                    if call_matches(a.term, r"^core::option::Option::(is_none|is_some)$"):
+                        x = src(a.args[0])
+                        if bool(x) and all(y[0] == "place" and y[1] == slots[nm] and tuple(y[2]) == () for y in x):
+                            return (st_ == "empty") == a.name.endswith("is_none")
+                raise Unsupported("test %s at bb%d" % (a.name, a.bb))
+            if a.kind == "switch":
+                l = op_local(a.args[0])
+                for st in f.blocks[a.bb]["s"]:
+                    if st["k"] == "a" and st["lhs"]["l"] == l and st["rv"]["k"] == "discr":
+                        pl = st["rv"]["p"]
+                        x = {("place", pl["l"], ())} if pl["l"] in slotset and all(e[0] == "deref" for e in pl.get("p", [])) else copy_sources(f, pl["l"], stop=slotset)
+                        for nm in slots:
+                            if x and all(y[0] == "place" and y[1] == slots[nm] and tuple(y[2]) == () for y in x):
+                                vals = [int(z) for z, _ in f.blocks[a.bb]["t"]["targets"]]
+                                want = 0 if v[nm] == "empty" else 1
+                                return want if want in vals else "otherwise"
+                raise Unsupported("branch at bb%d" % a.bb)
+            raise Unsupported("%s at bb%d" % (a.kind, a.bb))
+        return value_of
+
+    for name in ("current_key", "best"):
+        sl = slots[name]
+        tg, badw = newkey_blocks(name)
+        rep.ob("ranking", bool(tg) and not badw, site(f, min(tg) if tg else None), "`%s` is only ever overwritten with Some(this path's sort_key) (other sources: %s)" % (name, badw), skey(F, f, "stores-key-" + name))
+        if not tg:
+            continue
+        try:
+            paths = booltab.extract(f, target=tg, start=sk[0][1]["t"], stop=stopset)
+            bad = []
+            for is_current in (False, True):
+                for cs in ("empty", "lt", "ge"):
+                    for bs in ("empty", "lt", "ge"):
+                        v = {"is_current": is_current, "current_key": cs, "best": bs}
+                        got = booltab.evaluate(paths, slot_value_of(v))
+                        mine = v[name]
+                        want = (mine in ("empty", "lt")) and (is_current or name == "best")
+                        if got != want:
+                            bad.append("%s%s -> %s" % ("current path, " if is_current and name == "current_key" else "", {"empty": "slot empty", "lt": "new key < stored", "ge": "new key >= stored"}[mine], "overwritten" if got else "kept"))
+            rep.ob("ranking", not bad, site(f, min(tg)), "`%s` is a running minimum: overwritten exactly when %sit is empty or the new key is smaller (so the lowest-RTT instance of a duplicated address counts); mismatches: %s" % (name, "the path is the current one and " if name == "current_key" else "", sorted(set(bad))), skey(F, f, "min-" + name))
+        except Unsupported as e:
+            rep.ob("ranking", False, site(f, min(tg)), "update logic of `%s` could not be extracted (unrecognised idiom, fails closed): %s" % (name, e), skey(F, f, "min-" + name))
+
+    # ---- the final decision
+    sets = [b for b, t in find_calls(f, regex=r"PathSelection::set$")]
+    b_l, c_l = slots["best"], slots["current_key"]
+
+    def fsrc(o):
+        l = op_base(o)
+        return copy_sources(f, l, stop=slotset) if l is not None else set()
+
+    def is_place(x, sl, flds):
+        return bool(x) and all(y[0] == "place" and y[1] == sl and tuple(y[2]) == flds for y in x)
+    thresholds = []
+    try:
+        paths = booltab.extract(f, target=set(sets), start=none_c[0][0])
+        bad = []
+        for best_some in (False, True):
+            for cur_some in (False, True):
+                for tier_ne in (False, True):
+                    for le in (False, True):
+                        def value_of(a):
+                            if a.kind == "switch":
+                                l = op_local(a.args[0])
+                                for st in f.blocks[a.bb]["s"]:
+                                    if st["k"] == "a" and st["lhs"]["l"] == l and st["rv"]["k"] == "discr" and not st["rv"]["p"].get("p"):
+                                        vals = [int(z) for z, _ in f.blocks[a.bb]["t"]["targets"]]
+                                        if st["rv"]["p"]["l"] == b_l:
+                                            w = 1 if best_some else 0
+                                            return w if w in vals else "otherwise"
+                                        if st["rv"]["p"]["l"] == c_l:
+                                            w = 1 if cur_some else 0
+                                            return w if w in vals else "otherwise"
+                                raise Unsupported("branch at bb%d" % a.bb)
+                            if a.kind == "call" and call_matches(a.term, r"^core::cmp::PartialEq::(eq|ne)$"):
+                                x0, x1 = fsrc(a.args[0]), fsrc(a.args[1])
+                                bt, ct = ("0", "1", "0"), ("0", "0")
+                                if (is_place(x0, b_l, bt) and is_place(x1, c_l, ct)) or (is_place(x1, b_l, bt) and is_place(x0, c_l, ct)):
+                                    return tier_ne == a.name.endswith("::ne")
+                                raise Unsupported("equality test at bb%d is not between the two tiers" % a.bb)
+                            if a.kind == "cmp":
+                                x, y = a.args
+                                op = a.name
+
+                                def best_plus_min(o):
+                                    l = op_base(o)
+                                    if l is None:
+                                        return False
+                                    adds = [z for z in du.origin_facts(l, kinds=("bin",)) if z[4]["op"] in ("Add", "AddWithOverflow")]
+                                    if len(adds) != 1:
+                                        return False
+                                    p, q = adds[0][4]["a"], adds[0][4]["b"]
+                                    for u, w in ((p, q), (q, p)):
+                                        if is_place(fsrc(u), b_l, ("0", "1", "1")):
+                                            wl = op_base(w)
+                                            cs = {z[4].get("def") for z in du.origin_facts(wl, kinds=("const",)) if z[4].get("def")} if wl is not None else set()
+                                            calls = [ct for cb, ct in du.origin_calls(wl)] if wl is not None else []
+                                            if cs == {M + "RTT_SWITCHING_MIN"} and len(calls) == 1 and call_matches(calls[0], r"Duration::as_nanos$"):
+                                                return True
+                                    return False
+                                cur_b = lambda o: is_place(fsrc(o), c_l, ("0", "1"))
+                                if best_plus_min(x) and cur_b(y) and op in ("Le", "Gt"):
+                                    thresholds.append(a.bb)
+                                    return le == (op == "Le")
+                                if best_plus_min(y) and cur_b(x) and op in ("Ge", "Lt"):
+                                    thresholds.append(a.bb)
+                                    return le == (op == "Ge")
+                                raise Unsupported("comparison %s at bb%d is not `best_biased + RTT_SWITCHING_MIN <= current_biased`" % (op, a.bb))
+                            raise Unsupported("%s %s at bb%d" % (a.kind, a.name, a.bb))
+                        got = booltab.evaluate(paths, value_of)
+                        want = best_some and ((not cur_some) or tier_ne or le)
+                        if got != want:
+                            bad.append("candidate=%s current_key=%s tiers_differ=%s best+5ms<=current=%s -> %s" % (best_some, cur_some, tier_ne, le, "switch" if got else "stay"))
+        rep.ob("ranking", not bad, site(f, sets[0]), "the switching decision is: candidate exists and (no key for the current path, or another tier, or best_biased + RTT_SWITCHING_MIN <= current_biased); mismatches: %s" % bad[:4], skey(F, f, "decision"))
+        rep.ob("ranking", bool(thresholds), site(f), "the same-tier threshold comparison was found and its operands are (best key's biased rtt + RTT_SWITCHING_MIN) vs (current key's biased rtt)", skey(F, f, "threshold-operands"))
+    except Unsupported as e:
+        rep.ob("ranking", False, site(f, sets[0]), "the switching decision could not be extracted (unrecognised idiom, fails closed): %s" % e, skey(F, f, "decision"))
+    # ---- constants
+    for cn, ms in (("RTT_SWITCHING_MIN", "5_u64"), ("IPV6_RTT_ADVANTAGE", "3_u64")):
+        c = get_fn(F, rep, M + cn)
+        cc = list(c.calls())
+        ok = len(cc) == 1 and call_matches(cc[0][1], r"Duration::from_millis$") and cc[0][1]["dest"]["l"] == 0 and cc[0][1]["args"][0]["k"] == "const" and str(cc[0][1]["args"][0].get("v")).replace("const ", "") == ms
+        rep.ob("ranking", ok, site(c), "%s = Duration::from_millis(%s)" % (cn, ms.split("_")[0]), skey(F, c, "value"))
+    # ---- keys
+    skf = get_fn(F, rep, M + "BiasedRttPathSelector::sort_key")
+    rets = [(b, i, rv) for b, i, rv in returns_of(skf) if i is not None]
+    ok = len(rets) == 1 and rets[0][2]["k"] == "agg" and rets[0][2]["ak"] == "tuple" and len(rets[0][2]["ops"]) == 2
+    why = ""
+    if ok:
+        o0, o1 = rets[0][2]["ops"]
+        s0 = copy_sources(skf, op_base(o0))
+        s1 = copy_sources(skf, op_base(o1))
+        sdu = defuse(skf)
+        sat = [(b, t) for b, t in sdu.origin_calls(op_base(o1)) if call_matches(t, r"saturating_add$")]
+        ok = s0 == {("call", M + "BiasedRttPathSelector::bias_for", ("transport_type",))} and len(sat) == 1 and all(x[0] == "call" and x[1].endswith("saturating_add") for x in s1)
+        if ok:
+            t = sat[0][1]
+            a, b_ = t["args"]
+            sa, sb_ = copy_sources(skf, op_base(a)), copy_sources(skf, op_base(b_))
+            nan = lambda x: bool(x) and all(y[0] == "call" and y[1].endswith("Duration::as_nanos") for y in x)
+            bias = lambda x: x == {("call", M + "BiasedRttPathSelector::bias_for", ("rtt_bias",))}
+            ok = (nan(sa) and bias(sb_)) or (nan(sb_) and bias(sa))
+            for cb, ct in sdu.origin_calls(op_base(o1)):
+                if call_matches(ct, r"Duration::as_nanos$"):
+                    ok = ok and copy_sources(skf, op_base(ct["args"][0])) == {("arg", 3, ())}
+        why = "%s / %s" % (sorted(map(str, s0)), sorted(map(str, s1)))
+    rep.ob("ranking", ok, site(skf), "sort_key = (bias.transport_type, rtt.as_nanos() saturating_add bias.rtt_bias) of bias_for(addr): %s" % why, skey(F, skf, "key-shape"))
+    tt = F.adt(M + "TransportType")
+    order = [(v["name"], int(v["discr"])) for v in tt["variants"]]
+    der = {i["trait_path"] for i in F.impls_of(adt=M + "TransportType") if i.get("derived")}
+    rep.ob("ranking", order == [("Primary", 0), ("Backup", 1)] and "core::cmp::PartialOrd" in der and "core::cmp::Ord" in der, M + "TransportType", "tiers are ordered Primary < Backup by the derived ordering (%s)" % order, "TransportType|order")
+    # ---- default table
+    df = F.find(r"^<iroh::socket::biased_rtt_path_selector::BiasedRttPathSelector as core::default::Default>::default$")
+    if len(df) == 1:
+        g = rep.fn(df[0])
+        gdu = defuse(g)
+        table = {}
+        for b, t in find_calls(g, regex=r"HashMap::insert$"):
+            k = {x[1].rsplit("::", 1)[-1] for x in copy_sources(g, op_base(t["args"][1])) if x[0] == "agg"}
+            vl = op_base(t["args"][2])
+            ctor = sorted({callee_names(ct)[0].rsplit("::", 1)[-1] for cb, ct in gdu.origin_calls(vl) if call_matches(ct, r"TransportBias::")})
+            consts = sorted({str(z[4].get("def")).rsplit("::", 1)[-1] for z in gdu.origin_facts(vl, kinds=("const",)) if z[4].get("def")})
+            for kk in k:
+                table[kk] = (ctor, consts)
+        want = {"IpV4": (["primary"], []), "IpV6": (["primary", "with_rtt_advantage"], ["IPV6_RTT_ADVANTAGE"]), "Relay": (["backup"], [])}
+        rep.ob("ranking", table == want, site(g), "default bias table: %s" % table, skey(F, g, "bias-table"))
+    else:
+        rep.missing("ranking", "Default for BiasedRttPathSelector")
+    for nm, var in (("primary", "Primary"), ("backup", "Backup")):
+        c = get_fn(F, rep, M + "TransportBias::" + nm)
+        vs = {rv["variant"] for b, i, rv in aggregates_in(c, c.reachable(0), M + "TransportType")}
+        rep.ob("ranking", vs == {var}, site(c), "TransportBias::%s() is tier %s" % (nm, var), skey(F, c, "tier"))
+    adv = get_fn(F, rep, M + "TransportBias::with_rtt_advantage")
+    subs = [st for b, i, st in adv.stmts() if st["k"] == "a" and st["rv"]["k"] == "bin" and st["rv"]["op"] in ("Sub", "SubWithOverflow")]
+    adds = [st for b, i, st in adv.stmts() if st["k"] == "a" and st["rv"]["k"] == "bin" and st["rv"]["op"] in ("Add", "AddWithOverflow")]
+    rep.ob("ranking", len(subs) == 1 and not adds, site(adv), "an RTT advantage lowers the bias (one subtraction, no addition)", skey(F, adv, "advantage-subtracts"))
 
 
 def operand_or_agg_variant(f, s):
